@@ -38,14 +38,14 @@ CORPUS = os.path.join(common.VERIF, "corpus", "hpackenc")
 MODES = ("mixed", "evict", "resize", "static", "sensitive")
 MAX_ALLOWED = 4096
 
-PREAMBLE = ("From H2V Require Import Base.Tac Base.Bytes Model.HpackEnc.\n"
+PREAMBLE = ("From Coq Require Import Uint63.\nFrom H2V Require Import Base.Tac Base.Bytes Model.HpackEnc.\n"
             "Local Open Scope N_scope.\n")
-ORACLE_PREAMBLE = ("From H2V Require Import Base.Tac Base.Bytes Model.HpackEnc.\n"
+ORACLE_PREAMBLE = ("From Coq Require Import Uint63.\nFrom H2V Require Import Base.Tac Base.Bytes Model.HpackEnc.\n"
                    "Local Open Scope N_scope.\n"
-                   "Definition oracle_ok c := oracle_of_case c =? 0.\n")
-BOTH_PREAMBLE = ("From H2V Require Import Base.Tac Base.Bytes Model.HpackEnc.\n"
+                   "Definition oracle_ok c := oracle_of_case_packed c =? 0.\n")
+BOTH_PREAMBLE = ("From Coq Require Import Uint63.\nFrom H2V Require Import Base.Tac Base.Bytes Model.HpackEnc.\n"
                  "Local Open Scope N_scope.\n"
-                 "Definition both_ok c := check_and_oracle c =? 0.\n")
+                 "Definition both_ok c := check_and_oracle_packed c =? 0.\n")
 
 ORACLE_CLASSES = {
     1: "emitted-block-rejected-by-reference-decoder",
@@ -61,42 +61,53 @@ ORACLE_CLASSES = {
 # rendering
 
 def nl(xs):
+    return common.coq_N_list(xs) if xs else "(@nil N)"
+
+
+def pb(xs):
+    """an octet string in the compact transport form of Model.HpackEnc ([pbytes]): its length and
+    7 octets per primitive integer, little endian (coqc reads list literals of octets very slowly)"""
     if not xs:
-        return "(@nil N)"
-    if len(xs) > 4000:
+        return "(0, (@nil Uint63.int))"
+    data = bytes(xs)
+    words = [str(int.from_bytes(data[i:i + 7], "little")) for i in range(0, len(data), 7)]
+    if len(words) > 3000:
         # one list literal of tens of thousands of elements overflows coqc's stack
-        return "(" + " ++ ".join(common.coq_N_list(xs[i:i + 2000]) for i in range(0, len(xs), 2000)) + ")"
-    return common.coq_N_list(xs)
+        lit = "(" + " ++ ".join("[" + "; ".join(words[i:i + 2000]) + "]" for i in range(0, len(words), 2000)) + ")%uint63"
+    else:
+        lit = "[" + "; ".join(words) + "]%uint63"
+    return "(%d, %s)" % (len(data), lit)
 
 
-def pairs(fs):
+def ppairs(fs):
     if not fs:
-        return "(@nil (list N * list N))"
-    return "[" + "; ".join("(%s, %s)" % (nl(n), nl(v)) for n, v in fs) + "]"
+        return "(@nil (pbytes * pbytes))"
+    return "[" + "; ".join("(%s, %s)" % (pb(n), pb(v)) for n, v in fs) + "]"
 
 
 def field_in(f):
     n, v, s = f
-    return "(FI %s %s %s)" % ("None" if n is None else "(Some %s)" % nl(n), nl(v), common.coq_bool(s))
+    return "(%s, %s, %s)" % ("None" if n is None else "(Some %s)" % pb(n), pb(v), common.coq_bool(s))
 
 
 def fields_in(fs):
     if not fs:
-        return "(@nil field_in)"
+        return "(@nil pfield_in)"
     return "[" + "; ".join(field_in(f) for f in fs) + "]"
 
 
 def block_term(b):
     if b.get("out") is None:
-        obs = "OPanicNoName" if b.get("panic") == "no-previous-name" else "OPanicOther"
+        obs = "PPanicNoName" if b.get("panic") == "no-previous-name" else "PPanicOther"
     else:
         t = b["table"]
-        ent = "(Some %s)" % pairs(t["entries"]) if "entries" in t else "None"
-        obs = "(OOut %s %d %d %s)" % (nl(b["out"]), t["size"], t["max"], ent)
+        ent = "(Some %s)" % ppairs(t["entries"]) if "entries" in t else "None"
+        obs = "(POut %s %d %d %s)" % (pb(b["out"]), t["size"], t["max"], ent)
     return "(%s, %s, %s)" % (nl(b["ups"]), fields_in(b["fields"]), obs)
 
 
 def case_term(c):
+    """a history as a term of type N * N * list pblock_rec (Model.HpackEnc, compact transport)"""
     return "(%d, %d, [%s])" % (c["init"], c["cap"], "; ".join(block_term(b) for b in c["blocks"]))
 
 
@@ -180,9 +191,9 @@ def corpus_inputs():
 
 
 def _shard(terms):
-    """coqc reads list literals at ~40 kB/s: aim at 3 shards per core, at least 100 kB each"""
+    """aim at 3 shards per core, at least 40 kB of (packed) Coq input each"""
     total = sum(len(t) for t in terms)
-    per = max(1e5, total / (3.0 * common.NPROC))
+    per = max(4e4, total / (3.0 * common.NPROC))
     return max(1, min(250, int(len(terms) * per / max(total, 1))))
 
 
@@ -199,7 +210,7 @@ def model_failing(tag, cases):
     if not cases:
         return [], None
     terms = [case_term(c) for c in cases]
-    return common.coq_eval_failing(tag, PREAMBLE, "check_hpack_enc", terms, shard=_shard(terms), timeout=1800)
+    return common.coq_eval_failing(tag, PREAMBLE, "check_hpack_enc_packed", terms, shard=_shard(terms), timeout=1800)
 
 
 def oracle_failing(tag, cases):
@@ -222,7 +233,7 @@ def h2_decoder_objects(c):
 
 def oracle_code(c):
     rc, out = common.coq_eval_raw("hpackenc_oracle_code", ORACLE_PREAMBLE +
-                                  'Goal True. idtac "@@RESULT". Abort.\nEval vm_compute in (oracle_of_case %s).\n' % oracle_term(c))
+                                  'Goal True. idtac "@@RESULT". Abort.\nEval vm_compute in (oracle_of_case_packed %s).\n' % oracle_term(c))
     if rc != 0 or "@@RESULT" not in out:
         return -1
     m = re.search(r"=\s*(\d+)\s*:\s*N", out.split("@@RESULT", 1)[1].replace("\n", " "))
